@@ -22,7 +22,9 @@ ASSUMPTIONS = [
     "enable = 1; data_sink idle; queued headers are not of DATA type (dw0[3:0] != 8): header-only packets, DPP framing is C36",
     "partner link commands are well framed (LCSTART, command word); content, corruption, timing free",
     "the partner never advertises more than 4 outstanding credits",
-    "lrty_pending follows the DUT's retry_required and is cleared by a free 'LRTY sent' strobe (HeaderPacketReceiver's role)",
+    "lrty_pending follows the DUT's retry_required and is cleared by a free 'LRTY sent' strobe (HeaderPacketReceiver's "
+    "role) that comes no earlier than 3 cycles after it was set and never while a header packet occupies the wire",
+    "the partner sends LBAD only when at least one completely transmitted header is unacknowledged",
     "after an LBAD the partner sends no LGOOD/LBAD until the retransmission it asked for is complete "
     "(USB3: LBAD is sent after all pending LGOODs; acknowledgements resume with the retransmitted headers); no header "
     "is accepted from the protocol layer in the very cycle the LBAD is decoded; LGOOD only for headers already sent",
@@ -55,7 +57,7 @@ class HeaderTxHarness(Harness):
         cn = ["two_headers_sent", "retransmit_dl", "retire_then_reuse", "tracked_sent", "mismatch", "retx_two",
               "fifth_header"]
         self.c = {n: self.cover(n) for n in cn}
-        self.a = {n: self.assume(n) for n in ("not_data", "credit_cap", "lrty", "quiet_retry", "ack_sent")}
+        self.a = {n: self.assume(n) for n in ("not_data", "credit_cap", "lrty", "quiet_retry", "ack_sent", "lbad_cause")}
 
     def elaborate(self, platform):
         m = Module()
@@ -76,7 +78,13 @@ class HeaderTxHarness(Harness):
             m.d.ss += lrty_pending.eq(1)
         with m.Elif(self.lrty_sent):
             m.d.ss += lrty_pending.eq(0)
-        m.d.comb += [dut.lrty_pending.eq(lrty_pending), self.a["lrty"].eq(~self.lrty_sent | lrty_pending)]
+        lrty_age = Signal(2, name="g_lrty_age")
+        with m.If(~lrty_pending | self.lrty_sent):
+            m.d.ss += lrty_age.eq(0)
+        with m.Elif(lrty_age != 3):
+            m.d.ss += lrty_age.eq(lrty_age + 1)
+        wire_busy = Signal(name="g_wire_busy")
+        m.d.comb += dut.lrty_pending.eq(lrty_pending)
 
         # ------------------------------------------------ partner commands, one cycle delayed (detector registers them)
         c_v = Signal(name="c_v")
@@ -162,6 +170,9 @@ class HeaderTxHarness(Harness):
                                                            src.ctrl != 0))
         in_pkt = Signal(name="in_pkt")            # a header is on the wire / offered
         m.d.comb += in_pkt.eq(src.valid | (widx != 0))
+        # LRTY travels over the same wire (the receiver half needs 3 cycles to start it, and the arbiter cannot
+        # insert it into a header packet)
+        m.d.comb += [wire_busy.eq(in_pkt), self.a["lrty"].eq(~self.lrty_sent | (lrty_pending & (lrty_age == 3) & ~wire_busy))]
 
         # whether the header on the wire is a retransmission is decided when its HPSTART is first offered: a header
         # handed to the raw transmitter before the retry became effective completes as a first transmission
@@ -195,6 +206,7 @@ class HeaderTxHarness(Harness):
         in_retry = Signal(name="in_retry")
         m.d.comb += in_retry.eq(retx_active)
         m.d.comb += self.a["quiet_retry"].eq(~(in_retry & (is_lgood | is_lbad)) & ~(is_lbad & acc))
+        m.d.comb += self.a["lbad_cause"].eq(~is_lbad | (n_out != n_untx))
         m.d.comb += self.a["ack_sent"].eq(~(is_lgood & bring & (c_sub == g_ack) & (n_out == n_untx)))
         trk_lbad = Signal(name="trk_lbad_since")
         with m.If(is_lbad & trk_have):
